@@ -741,8 +741,10 @@ class TypeBlocks(ContainerOperand):
                     else:
                         yield b[index_ic.iloc_src_fancy(), columns_ic.iloc_src]
                 else:
+                    # with no column label in common iloc_dst / iloc_src are None
                     columns_dst_to_src = dict(
-                            zip(columns_ic.iloc_dst, columns_ic.iloc_src)) #type: ignore [arg-type]
+                            zip(columns_ic.iloc_dst, columns_ic.iloc_src) #type: ignore [arg-type]
+                            ) if columns_ic.has_common else {}
 
                     for idx in range(columns_ic.size):
                         if idx in columns_dst_to_src:
